@@ -48,16 +48,28 @@ def run_mem_history(hist):
     from miasmx.expression.expression import ExprId, ExprMem, ExprAff
     from miasmx.expression.expression_eval_abstract import eval_abs
     kind, stores, load = hist
+    sliced = kind.endswith('/sl')       # the stored values are consecutive slices of ONE symbol (mov [p], al ; mov [p+1], ah ...)
+    if sliced: kind = kind[:-3]
     m = eval_abs({}, log=logging.getLogger('verif.null'))
     st = D.State()
     mem = st.mem
+    pos = 0
     for i, (w, off) in enumerate(stores):
-        v = ExprId('v%d_%d' % (i, w), w)
-        m.eval_instr([ExprAff(ExprMem(addr_expr(kind, off), w), v)])
+        if sliced:
+            from miasmx.expression.expression import ExprSlice
+            if pos + w > 64: pos = 0
+            mk = lambda pos=pos, w=w: ExprSlice(ExprId('X64', 64), pos, pos + w)
+            pos += w
+        else:
+            mk = lambda i=i, w=w: ExprId('v%d_%d' % (i, w), w)
+        m.eval_instr([ExprAff(ExprMem(addr_expr(kind, off), w), mk())])
         a = D.fit(D.den(addr_expr(kind, off), st), 32)
-        mem = D.mem_write(mem, a, D.den(ExprId('v%d_%d' % (i, w), w), st), w // 8)
+        mem = D.mem_write(mem, a, D.den(mk(), st), w // 8)
     w, off = load
     r = m.eval_expr(ExprMem(addr_expr(kind, off), w), {})
+    if sliced:
+        # the same read again: a load must not change what is stored (the result of the second read is what is compared)
+        r = m.eval_expr(ExprMem(addr_expr(kind, off), w), {})
     a = D.fit(D.den(addr_expr(kind, off), st), 32)
     bs = [z3.Select(mem, a + z3.BitVecVal(i, 32)) for i in range(w // 8)]
     ref = bs[0] if len(bs) == 1 else z3.Concat(*reversed(bs))
@@ -111,6 +123,14 @@ def mem_histories(tier, seed):
         for i in range(150 if tier == 'quick' else 4000):
             n = rng.randrange(3, 7)
             out.append((kind, [(rng.choice(W), rng.randrange(0, 8)) for _ in range(n)], (rng.choice(W), rng.randrange(-3, 8))))
+        # adjacent cells holding consecutive slices of one symbol, read back (twice) with a wide load
+        for ws in ((8, 8), (8, 8, 8, 8), (16, 16), (8, 16, 8), (16, 8, 8), (8, 8, 16)):
+            for start in (0, 1):
+                stores, o = [], start
+                for w in ws:
+                    stores.append((w, o)); o += w // 8
+                for ld in ((16, start), (32, start), (32, start - 1), (16, start + 1), (8, start + 1)):
+                    out.append((kind + '/sl', stores, ld))
     return out
 
 # ------------------------------------------------------------------------------------------------ instruction sequences
